@@ -301,8 +301,8 @@ pub fn wide(out: &mut String, rng: &mut Rng, case_no: usize) {
     }
     let mut rev: Vec<&String> = names.iter().collect();
     rev.reverse();
-    if rng.chance(1, 3) {
-        // mostly reversed: a random rotation keeps the long chains but varies the release point
+    if case_no % 3 != 1 && rng.chance(1, 3) {
+        // mostly reversed: a random rotation keeps long chains but varies the release point (never for the fan: its root must come last)
         let k = rng.below(rev.len());
         rev.rotate_left(k);
     }
